@@ -325,10 +325,28 @@ pub fn run(env: &Env, tier: &str, seed: u64, out: &mut Outcome) {
                 out.inconclusive = Some(format!("[{}] cargo failed without attributable diagnostics:\n{}", cfgk.tag(), b.stderr_tail));
                 continue;
             }
+            // an enum the macros themselves reject with a diagnostic was deliberately put outside the
+            // domain (tightened validation): removed, not a violation
+            let mut failing: BTreeSet<String> = b.errors.iter().filter_map(|e| e.enum_name.clone()).collect();
+            let suspects: Vec<(String, Vec<String>, String)> = failing
+                .iter()
+                .filter_map(|en| specs.iter().find(|s| &s.name == en))
+                .map(|s| {
+                    let eo = emit::enum_opts(s, &s.name);
+                    (s.name.clone(), s.derives.clone(), emit::enum_item(s, &eo).replace("vrt::MyErr", "MyErr"))
+                })
+                .collect();
+            let accepted = crate::inproc::accepted_by_macros(env, "C19", &suspects);
+            for (name, ok) in &accepted {
+                if !*ok {
+                    failing.remove(name);
+                    out.removed.push((name.clone(), "rejected by the derive itself".into()));
+                }
+            }
             let mut seen = BTreeSet::new();
             for e in &b.errors {
                 let en = e.enum_name.clone().unwrap();
-                if !seen.insert(en.clone()) {
+                if !failing.contains(&en) || !seen.insert(en.clone()) {
                     continue;
                 }
                 let spec = specs.iter().find(|s| s.name == en).cloned();
